@@ -121,6 +121,7 @@ static void materialise()
   vs_reg_mutex(mtx->data, 2);
   vs_reg_sem(sem->data, 0);
   occ = 0; evn = 0;
+  if(vs_uninit()) printf("%ld ! uninit-primitive mask=%d (pthread_mutex_init / pthread_cond_init / sem_init was not called for it)\n", cur_case, vs_uninit());
   for(int t = 0; t < VS_MAXT; ++t)
     if(t == 0 || (cfg_auto && t < n_thr)) vs_spawn(t, scenario_direct, &ctx[t]);
 }
